@@ -43,6 +43,8 @@ def m_hcmd_response(I, c, args, fr):
         return ok(Tup([o.k, args[1]]))
     fail = I.ctx.fresh_bool('resp%d_fails' % o.k)
     if I.ctx.decide(fail):
+        if isinstance(I.world, list):
+            I.world.append(('failed', o.k, None))
         return err(Adt('TypedResponseError', None, 0, [str_ref('f'), Adt('ErrorKind', 'Missing', 0, [])], ['field', 'kind']))
     return ok(Tup([o.k, args[1]]))
 
@@ -298,6 +300,10 @@ def run_typed(P, res, payload):
         want = None if n == 0 else expected_wire([[ord('c'), 97 + k] for k in range(n)])
         if wire != want:
             bad = 'typed %s list of %d commands is written as %r' % (kind, n, bytes(wire) if wire is not None else None)
+        failed = [w for w in world if w[0] == 'failed']
+        world = [w for w in world if w[0] == 'response']
+        if r.variant != 'Ok' and not failed:
+            bad = 'typed %s list of %d commands given %d well-formed frames fails although every response conversion succeeded' % (kind, n, n)
         # pairing: the k-th response conversion that ran was given frame k, in order
         for j, (_, k, f) in enumerate(world):
             if k != j or frame_id(f) != k:
